@@ -29,7 +29,14 @@ One case = one world of harness/setupsim.py (one stack, products p1..pn with ran
               and tabs inside the parentheses, quotes, flags -j -k -f flavor -t tag, unknown flags, a flag without its
               argument, brackets split or glued, bare relational expressions, lines naming eups, semicolons,
               unsetupRequired, --external, comments that end in a brace, a file without final line feed, carriage
-              returns, a character outside ASCII ...), and the expanded table itself (a pre-existing exact block);
+              returns, a character outside ASCII ...), and - seven worlds in ten - the expanded table itself: the
+              RE-EXPANSION of a table that carries the blocks of an earlier expansion (Model/ExpandRe.v), judged by the
+              same clauses, the table's own lines being those a reader sees through the old blocks; in four of those
+              ten the re-expanded text is what gets installed and replayed (eups expandtable -i run twice);
+  * directed: versions NAMED like tags (stable, current, latest, the user name) set up while the tag sits on another
+              version of the product; top tables that HAVE BEEN EXPANDED BEFORE by an earlier build (stale pins, versions
+              no longer declared, blocks on type != exact, other spellings of the generated lines, envSet lines and a
+              flavor conditional behind the setups) - their dependencies are set up one by one, then the table expanded;
   * EVOLVE  : newer versions declared, `current` moved or removed;
   * REPLAY  : the expanded text written over the installed table (what `expandtable -i` does), then
               `setup --exact top v` in a fresh environment; compared with Model/Setup.v run on the evolved
@@ -38,7 +45,9 @@ One case = one world of harness/setupsim.py (one stack, products p1..pn with ran
 Oracles (the property text, evaluated on what the real code produced; the first three on the text of each protocol):
   pins-foreign     a line of the exact block names a version that was not set up at expansion time - not recorded in
                    the SETUP_ variables the setup left - nor supplied through the productList
-  other-lines      the non-setup lines of the expanded text are the input's, unchanged and in order
+  other-lines      the non-setup lines of the expanded text are the input's, unchanged and in order - in the exact and
+                   in the non-exact reading; when the input has itself been expanded before, its own lines are those a
+                   reader sees through the blocks the earlier expansion wrote (input_views)
   inexact          the non-exact branch carries every setup line with its original constraint
   exact-reproduces-missing / -extra   conflict-free build => the replay records every build-time version / nothing else
 (an expansion that raises is not judged: the property speaks about tables that were expanded; such cases are counted in
@@ -416,7 +425,7 @@ def gen_case(rng):
     table = world["products"][top][topv]
     texts = [vary_text(rng, table) for _ in range(rng.choice([1, 1, 2]))]
     return {"world": world, "top": top, "topv": topv, "plist": plist, "force": force, "evolve": ops, "texts": texts,
-            "reexpand": rng.random() < 0.25}
+            "reexpand": rng.random() < 0.7, "install_reexpanded": rng.random() < 0.4}
 
 
 def gen_generic(rng, prods):
@@ -459,7 +468,7 @@ def gen_shared_case(rng):
         elif r < 0.6:
             ops.append({"op": "uncurrent", "name": n})
     rng.shuffle(ops)
-    return {"world": world, "top": "p5", "topv": v5, "plist": {}, "force": False, "evolve": ops}
+    return {"world": world, "top": "p5", "topv": v5, "plist": {}, "force": False, "evolve": ops, "reexpand": True}
 
 
 def gen_failed_optional_case(rng):
@@ -533,7 +542,7 @@ def gen_failed_optional_case(rng):
         elif r < 0.6:
             ops.append({"op": "uncurrent", "name": n})
     rng.shuffle(ops)
-    return {"world": world, "top": "p7", "topv": v["p7"], "plist": {}, "force": False, "evolve": ops}
+    return {"world": world, "top": "p7", "topv": v["p7"], "plist": {}, "force": False, "evolve": ops, "reexpand": True}
 
 
 def gen_spelling_case(rng):
@@ -562,6 +571,150 @@ def gen_spelling_case(rng):
     rng.shuffle(ops)
     return {"world": world, "top": "p4", "topv": v["p4"], "plist": {}, "force": False, "evolve": ops,
             "texts": [vary_text(rng, prods["p4"][v["p4"]])], "reexpand": False}
+
+
+# ---- versions named like tags
+
+# names the tag registry recognises: global tags (current, stable, latest) and the user's own tag (the user name)
+TAG_NAMES = ["stable", "stable", "current", "latest", "root"]
+
+
+def gen_tagname_case(rng):
+    """directed family: a product is set up at a version whose NAME is also the name of a recognised tag (a build called
+    stable, current, latest, or named after the user), while - for stable and current - that tag is assigned to ANOTHER
+    version of the same product.  What is set up is what the SETUP_ variable records: the version of that name.
+        p4 (top) -> p3, p2;   p3 -> p1;   p2 -> p1        victims: one or two of p1, p2, p3"""
+    P = "envPrepend(PATH, ${PRODUCT_DIR}/bin)"
+    v = {n: rng.choice(setupsim.VERSIONS) for n in ("p1", "p2", "p3", "p4")}
+    victims = rng.sample(["p1", "p2", "p3"], rng.choice([1, 1, 2]))
+    prods = {n: {v[n]: [P]} for n in v}
+    current = {n: v[n] for n in v}
+    tags = {}
+    req = {n: rng.choice(["", "", " " + v[n]]) for n in v}           # how the tables ask for each product
+    for n in victims:
+        tn = rng.choice(TAG_NAMES)
+        prods[n][tn] = [P]
+        if tn == "current":
+            req[n] = " current"                                      # the tag current stays on the other version
+        elif tn == "stable":
+            tags.setdefault("stable", {})[n] = v[n]                  # the tag stable sits on the other version
+            if rng.random() < 0.6:
+                current[n] = tn
+                req[n] = ""
+            else:
+                req[n] = " stable"
+        else:
+            if rng.random() < 0.5:
+                current[n] = tn
+                req[n] = ""
+            else:
+                req[n] = " " + tn
+        if rng.random() < 0.3:                                       # a third, ordinary version
+            prods[n][rng.choice([u for u in setupsim.VERSIONS if u != v[n]])] = [P]
+    for n in ("p2", "p3"):
+        for ver in prods[n]:
+            prods[n][ver] = [P, "setupRequired(p1%s)" % req["p1"]]
+    top = [P, "setupRequired(p3%s)" % req["p3"], rng.choice(OTHER_LINES) % 1,
+           "%s(p2%s)" % (rng.choice(["setupRequired", "setupOptional"]), req["p2"])]
+    if rng.random() < 0.35:
+        # a line with -j (p2 alone, without its dependency p1) in front of an ordinary line in the same run of setup lines
+        # (p3, which brings p1): whether a line carries -j is a matter of that line alone
+        top = [P, "setupRequired(p2 -j%s)" % req["p2"], "setupRequired(p3%s)" % req["p3"]]
+    if rng.random() < 0.3:
+        top.append("setupRequired(p1%s)" % req["p1"])
+    prods["p4"] = {v["p4"]: decorate(rng, top, flavors=(FLAVOR,)) if rng.random() < 0.5 else top}
+    world = {"root": "stack", "products": prods, "current": current, "generic": gen_generic(rng, prods), "tags": tags}
+    ops = []
+    for n in ("p1", "p2", "p3"):
+        r = rng.random()
+        if r < 0.5:
+            ops.append({"op": "declare", "name": n, "version": "4.0", "lines": list(prods[n][v[n]]), "current": rng.random() < 0.8})
+        elif r < 0.7:
+            ops.append({"op": "current", "name": n, "version": v[n]})
+        if n in tags.get("stable", {}) and rng.random() < 0.3:
+            ops.append({"op": "tag", "tag": "stable", "name": n, "version": rng.choice(sorted(prods[n]))})
+    rng.shuffle(ops)
+    return {"world": world, "top": "p4", "topv": v["p4"], "plist": {}, "force": False, "evolve": ops,
+            "texts": [], "reexpand": rng.random() < 0.5, "install_reexpanded": rng.random() < 0.3}
+
+
+# ---- tables that have been expanded before
+
+def reexpansion_shape(text):
+    """histogram keys for a table that carries blocks of an earlier expansion: where its exact block stands, and
+    whether commands other than setups follow it"""
+    lines = [strip_comment(ln) for ln in text.split("\n") if not BLANK_RE.search(ln)]
+    lines = [x for x in lines if x]
+    at = [i for i, ln in enumerate(lines) if IF_EXACT_RE.match(ln)]
+    if not at:
+        return ["no-exact-block"]
+    i = at[0]
+    keys = ["exact-block-" + ("first-line" if i == 0 else "after-setups" if lines[i - 1] == "}" or SETUP_RE.search(lines[i - 1])
+                              else "after-other-lines")]
+    j = i
+    while j < len(lines) and lines[j] != "}":
+        j += 1
+    rest = [ln for ln in lines[j + 1:] if not SETUP_RE.search(ln)]
+    if rest:
+        keys.append("commands-after-the-exact-block")
+    if any(re.match(r"^if\s*\(flavor", ln) for ln in rest):
+        keys.append("flavor-conditional-after-the-exact-block")
+    if any(IF_NOT_EXACT_RE.match(ln) for ln in lines):
+        keys.append("not-exact-blocks")
+    return keys
+
+
+def gen_installed_case(rng):
+    """directed family: the table of the top product HAS BEEN EXPANDED BEFORE, in another environment (the installed
+    table of a product that is built and packaged again): it carries an exact block with the versions pinned then -
+    other versions than those set up now, versions that are not declared any more - possibly blocks on type != exact
+    in front, and other commands (envSet lines, a flavor conditional) behind the setup lines.
+        p4 (top) -> p3, p2;   p3 -> p1;   p2 -> p1"""
+    P = "envPrepend(PATH, ${PRODUCT_DIR}/bin)"
+    v = {n: rng.choice(setupsim.VERSIONS) for n in ("p1", "p2", "p3", "p4")}
+    prods = {"p1": {v["p1"]: [P]}, "p2": {v["p2"]: [P, "setupRequired(p1)"]}, "p3": {v["p3"]: [P, "setupRequired(p1 %s)" % v["p1"]]}}
+    for n in ("p1", "p2"):
+        if rng.random() < 0.5:                  # an older version, which the earlier expansion pinned
+            old = rng.choice([u for u in setupsim.VERSIONS if u != v[n]])
+            prods[n][old] = list(prods[n][v[n]])
+
+    def old_version(n):
+        return rng.choice(sorted(prods[n]) + ["0.9"])
+
+    def line(kind, n):
+        form = rng.choice(["%s", "%s %s [>= %s]", "%s %s", "%s [>= 1.0]"])
+        return "%s(%s)" % (kind, form % ((n,) + (v[n],) * (form.count("%s") - 1)))
+    sp = rng.choice([0, 0, 0, 1, 2])            # spelling of the generated lines
+    if_exact = ["if (type == exact) {", "if(type==exact){", "if (type == exact) {   # written by expandtable"][sp]
+    if_not = ["if (type != exact) {", "if(type!=exact){", "if (type  !=  exact)  {"][sp]
+    els = ["} else {", "}else{", "} else {   # the original setups"][sp]
+    out = list(rng.choice([[], [], ["# top table"], [P], ["# top table", "", P], [rng.choice(OTHER_LINES) % 7]]))
+    k2 = rng.choice(["setupRequired", "setupOptional"])
+    if rng.random() < 0.4:                      # two setup blocks: the first was guarded by type != exact
+        out += [if_not, "   " + line("setupRequired", "p3"), "}", rng.choice(OTHER_LINES) % 1]
+        last = [line(k2, "p2")]
+    else:
+        last = [line("setupRequired", "p3"), line(k2, "p2")]
+        if rng.random() < 0.3:
+            last.insert(1, "# and")
+    pins = ["setupRequired(%-15s -j %s)" % (n, old_version(n)) for n in rng.sample(["p3", "p2", "p1"], rng.choice([1, 2, 3, 3]))]
+    ind = rng.choice(["   ", "   ", ""])
+    out += [if_exact] + [ind + x for x in pins] + [els] + [ind + x for x in last] + ["}"]
+    tail = rng.choice([0, 1, 2, 2, 3])
+    if tail >= 1:
+        out.append("envSet(TOP_MARKER, yes)")
+    if tail >= 2:
+        out += ["if (flavor == %s) {" % FLAVOR, "   envSet(TOP_FLAVOR, mine)", "} else {", "   envSet(TOP_FLAVOR, other)", "}"]
+    if tail >= 3:
+        out.append(rng.choice(OTHER_LINES) % 2)
+    prods["p4"] = {v["p4"]: out}
+    world = {"root": "stack", "products": prods, "current": {n: v[n] for n in prods}, "generic": gen_generic(rng, prods)}
+    ops = [{"op": "declare", "name": n, "version": "4.0", "lines": list(prods[n][v[n]]), "current": True} for n in ("p1", "p2", "p3")
+           if rng.random() < 0.7]
+    rng.shuffle(ops)
+    return {"world": world, "top": "p4", "topv": v["p4"], "plist": {}, "force": False, "evolve": ops,
+            "texts": [], "reexpand": True, "install_reexpanded": rng.random() < 0.5,
+            "build_deps": [["p3", rng.choice([None, v["p3"]])]] + ([["p2", None]] if k2 == "setupRequired" or rng.random() < 0.7 else [])}
 
 
 # ------------------------------------------------------------------ implementation (runs in a forked child)
@@ -593,6 +746,10 @@ def run_case(case):
     out = {}
     try:
         stack, userdata = setupsim.materialise(work, world)
+        for tag, where in sorted((world.get("tags") or {}).items()):
+            for n, v in sorted(where.items()):
+                sys.modules["eups.db.Database"]._databases.clear()
+                eups.Eups(quiet=1, flavor=setupsim.flavor_of(world, n)).assignTag(tag, n, v)
         base = {"EUPS_PATH": stack, "EUPS_USERDATA": userdata, "EUPS_FLAVOR": FLAVOR, "EUPS_SHELL": "sh",
                 "HOME": "/root"}
         out["stack"] = stack
@@ -624,9 +781,20 @@ def run_case(case):
         os.environ.clear()
         os.environ.update(base)
         e = _fresh_eups(eups)
-        e.selectVRO(None, None, topv, None)
+        # (the shipped VRO starts with type:exact: every setup here reads tables with type == exact).  A top table that
+        # carries an exact block of its own - the pins of an earlier build, stale by now - is not built from: its
+        # dependencies are set up one by one, as a developer does before building, and the table is then expanded
+        deps = case.get("build_deps")
         try:
-            ok, version, reason = e.setup(top, topv)
+            if deps:
+                ok = True
+                for n, ver in deps:
+                    e = _fresh_eups(eups)
+                    e.selectVRO(None, None, ver, None)
+                    ok = e.setup(n, ver)[0] and ok
+            else:
+                e.selectVRO(None, None, topv, None)
+                ok, version, reason = e.setup(top, topv)
         except Exception as ex:  # noqa
             ok = False
         # what is really set up now: the SETUP_ variables of the environment the setup left behind (a failed optional
@@ -687,7 +855,7 @@ def run_case(case):
         # ---- TEXTS: further table texts, expansion only (fresh instance, build environment)
         texts = [dict(t) for t in case.get("texts", [])]
         if case.get("reexpand") and "text" in out["expand"]:
-            texts.append({"kinds": ["re-expansion"], "text": out["expand"]["text"]})
+            texts.append({"kinds": ["re-expansion"] + reexpansion_shape(out["expand"]["text"]), "text": out["expand"]["text"]})
         for t in texts:
             os.environ.clear()
             os.environ.update(benv)
@@ -697,6 +865,13 @@ def run_case(case):
         out["texts"] = texts
         if "raise" in out["expand"]:
             return out
+        # the table that is installed and later set up in exact mode: the expanded text - or, where the case says so,
+        # the text of its re-expansion (eups expandtable -i run twice; an installed product that is packaged)
+        out["installed"] = out["expand"]["text"]
+        if case.get("install_reexpanded"):
+            for t in texts:
+                if t["kinds"][0] == "re-expansion" and "text" in t["result"]:
+                    out["installed"] = t["result"]["text"]
 
         # ---- EVOLVE
         os.environ.clear()
@@ -717,10 +892,12 @@ def run_case(case):
                     e.assignTag("current", n, op["version"])
                 elif op["op"] == "uncurrent":
                     e.unassignTag("current", n)
+                elif op["op"] == "tag":
+                    e.assignTag(op["tag"], n, op["version"])
             except Exception as ex:  # noqa  (e.g. untagging a product that has no current version)
                 pass
         with open(os.path.join(stack, setupsim.flavor_of(world, top), top, topv, "ups", top + ".table"), "w") as f:
-            f.write(out["expand"]["text"])
+            f.write(out["installed"])
 
         # ---- REPLAY in exact mode
         os.environ.clear()
@@ -760,6 +937,10 @@ def run_chunk(cases):
 # ------------------------------------------------------------------ reading an expanded text back (for the oracles)
 
 PIN_RE = re.compile(r"^(setupRequired|setupOptional)\((\S+) -j (\S+)\)$")
+# the lines an expansion adds around setup lines, as a reader of the table recognises them (blanks are free)
+IF_EXACT_RE = re.compile(r"^if\s*\(type\s*==\s*exact\)\s*{$")
+IF_NOT_EXACT_RE = re.compile(r"^if\s*\(type\s*!=\s*exact\)\s*{$")
+ELSE_RE = re.compile(r"^}\s*else\s*{$")
 
 
 def split_views(lines):
@@ -769,16 +950,18 @@ def split_views(lines):
     mode = None
     for ln in lines:
         if mode is None:
-            if ln == "if (type == exact) {":
+            if IF_EXACT_RE.match(ln):
                 mode = "pins"
-            elif ln == "if (type != exact) {":
+            elif IF_NOT_EXACT_RE.match(ln):
                 mode = "inexact"
             else:
                 inexact.append(ln)
                 exact.append(ln)
         elif mode == "pins":
-            if ln == "} else {":
+            if ELSE_RE.match(ln):
                 mode = "inexact"
+            elif ln == "}":             # a block on type == exact without else branch
+                mode = None
             else:
                 pins.append(ln)
                 exact.append(ln)
@@ -788,6 +971,14 @@ def split_views(lines):
             else:
                 inexact.append(ln)
     return pins, inexact, exact, mode is None
+
+
+def input_views(in_lines):
+    """the two readings of the table that is expanded - it may itself be an expanded table, whose blocks on the
+    expansion type are not lines of its own: (inexact view, exact view, ok), comments and blank lines dropped"""
+    norm = [strip_comment(ln) for ln in in_lines if not BLANK_RE.search(ln)]
+    _pins, inexact, exact, ok = split_views([x for x in norm if x])
+    return inexact, exact, ok
 
 
 def strip_comment(ln):
@@ -830,16 +1021,20 @@ def oracle_text(case, built, text, in_lines=None, clauses=(1, 2, 3)):
     if 2 not in clauses:
         return
     # (2) lines other than setup commands pass unchanged, in order (comment text and blank lines aside)
-    want = [strip_comment(ln) for ln in in_lines if not BLANK_RE.search(ln) and not is_setup_line(ln)]
-    want = [w for w in want if w]
-    for view, name in ((inexact, "inexact"), (exact, "exact")):
+    #     When the table that is expanded has been expanded before, the blocks on the expansion type it carries are not
+    #     lines of its own: a reader in either mode sees through them, before and after.
+    in_inexact, in_exact, in_ok = input_views(in_lines)
+    if not in_ok:
+        return                          # the input's own blocks do not close: no reading to compare with
+    for view, in_view, name in ((inexact, in_inexact, "inexact"), (exact, in_exact, "exact")):
+        want = [ln for ln in in_view if not SETUP_RE.search(ln)]
         got = [ln for ln in view if not ln.startswith("#") and not SETUP_RE.search(ln)]
         if got != want:
             yield ("other-lines", want, got, "the non-setup lines seen in %s mode differ from the input's" % name)
     if 3 not in clauses:
         return
     # (3) the non-exact branch keeps every setup line with its constraint
-    want_s = [classify(ln) for ln in in_lines if is_setup_line(ln)]
+    want_s = [classify(ln) for ln in in_inexact if SETUP_RE.search(ln)]
     got_s = [ln for ln in inexact if SETUP_RE.search(ln) and not ln.startswith("#")]
     if len(want_s) != len(got_s):
         yield ("inexact", len(want_s), got_s, "the non-exact branch has %d setup lines, the input %d" % (len(got_s), len(want_s)))
@@ -903,7 +1098,7 @@ def oracle(case, res):
             yield ("exact-reproduces-missing", built, r["outcome"], "setup --exact from the expanded table fails")
         else:
             missing = {n: v for n, v in built.items() if r["records"].get(n) != v}
-            extra = {n: v for n, v in r["records"].items() if n not in built}
+            extra = {n: v for n, v in r["records"].items() if n not in built and not (case.get("build_deps") and n == top)}
             if missing:
                 yield ("exact-reproduces-missing", built, r["records"],
                        "setup --exact from the expanded table does not reproduce %s (it records %s, the build recorded %s)"
@@ -974,7 +1169,7 @@ def expand_result(line):
 def forced_decisions(res, top, topv):
     """the decision stream the explicit versions of the exact block determine: the top product, then one per
     setup action of its table as the real parser reads it in exact mode (unknown names: not found)"""
-    pins, _, _, _ = split_views(norm_text(res["expand"]["text"]))
+    pins, _, _, _ = split_views(norm_text(res.get("installed") or res["expand"]["text"]))
     pinned = {}
     for p in pins:
         m = PIN_RE.match(p)
@@ -1033,6 +1228,17 @@ def evaluate(ctx, cases, results):
             if res.get("rawdeps_same") != res.get("rawdeps"):
                 ctx.bump("dependency-lists-differ-between-instances")
             top_text = "\n".join(c["world"]["products"][c["top"]][c["topv"]]) + "\n"
+            wtags = c["world"].get("tags") or {}
+            for n, ver in sorted(b["records"].items()):
+                if ver in TAG_NAMES:
+                    tagged = c["world"]["current"].get(n) if ver == "current" else wtags.get(ver, {}).get(n)
+                    ctx.bump("set-up-version-named-like-a-tag" + ("/tag-on-another-version" if tagged not in (None, ver) else ""))
+            if any(IF_EXACT_RE.match(strip_comment(ln)) for ln in top_text.split("\n")):
+                for k in reexpansion_shape(top_text):
+                    ctx.bump("top-table-expanded-before/" + k)
+            if "text" in x and c.get("install_reexpanded") and res.get("installed") is not None and \
+                    any(t["kinds"][0] == "re-expansion" and "text" in t["result"] for t in res.get("texts") or []):
+                ctx.bump("replay-from-the-re-expanded-table/" + ("same-text" if res["installed"] == x["text"] else "another-text"))
             for key, rawkey, _proto in PROTOCOLS:
                 if res.get(key) is None:
                     continue
@@ -1051,8 +1257,9 @@ def evaluate(ctx, cases, results):
             # reads is the final environment of the Setup model, failed optional dependencies rolled back
             rec = {"request": {"name": c["top"], "fwd": True}, "before": res["base"], "decisions": b["decisions"],
                    "after": b["env"], "aliases": b["aliases"], "ok": True, "outcome": "ok"}
-            bld_lines.append(setupsim.model_line(c["world"], {"parsed": res["parsed0"], "stack": res["stack"]}, rec))
-            bld_idx.append((i, rec))
+            if not c.get("build_deps"):         # (one request per trace: a build made of several requests is not replayed)
+                bld_lines.append(setupsim.model_line(c["world"], {"parsed": res["parsed0"], "stack": res["stack"]}, rec))
+                bld_idx.append((i, rec))
             if "replay" in res:
                 ds, leak = forced_decisions(res, c["top"], c["topv"])
                 if leak:
@@ -1100,7 +1307,7 @@ def evaluate(ctx, cases, results):
                 # the clauses of the property that speak about the text, on what the real code wrote: the pins always; the
                 # other two where the model follows the text (for a construct outside its grammar - a pre-existing exact
                 # block, --external, text around a command - the python reader of this oracle has no reading either)
-                clauses = (1, 2, 3) if "outside" not in m else () if m["outside"] == "exact-block" else (1,)
+                clauses = (1, 2, 3) if "outside" not in m else (1,)
                 try:
                     fs = list(oracle_text(c, res["build"]["records"], x["text"], text.split("\n"), clauses))
                 except OutOfGrammar:
@@ -1143,13 +1350,16 @@ def shrink_view(c, res, key="expand"):
             "built": res["build"]["records"], "expanded": (res.get(key) or {}).get("text"),
             "expanded_by_the_instance_that_did_the_setup": (res.get("expand_same") or {}).get("text"),
             "plist": c["plist"], "force": c["force"], "evolve": c["evolve"], "world": c["world"],
-            "texts": c.get("texts", []), "reexpand": c.get("reexpand", False)}
+            "texts": c.get("texts", []), "reexpand": c.get("reexpand", False),
+            "install_reexpanded": c.get("install_reexpanded", False), "build_deps": c.get("build_deps"),
+            "installed": res.get("installed") if res.get("installed") != (res.get(key) or {}).get("text") else None}
 
 
 def case_of(inp):
     return {"world": inp["world"], "top": inp["top"], "topv": inp["topv"], "plist": inp.get("plist", {}),
             "force": inp.get("force", False), "evolve": inp.get("evolve", []), "texts": inp.get("texts", []),
-            "reexpand": inp.get("reexpand", False)}
+            "reexpand": inp.get("reexpand", False), "install_reexpanded": inp.get("install_reexpanded", False),
+            "build_deps": inp.get("build_deps")}
 
 
 def explore(ctx, cases):
@@ -1220,7 +1430,7 @@ def m_empty_exact_block(f):
     exact mode"""
     if f["kind"] not in ("exact-reproduces-extra", "exact-reproduces-missing", "exact-view-leak"):
         return False
-    text = f["input"].get("expanded")
+    text = f["input"].get("installed") or f["input"].get("expanded")
     if not text:
         return False
     lines = norm_text(text)
@@ -1332,7 +1542,15 @@ def setup_ctx(ctx):
                 "directed family (the setup lines of the top table in other cases / with blanks before the parenthesis / "
                 "with commas, newer current versions declared afterwards); 1-3 further texts per world are expanded only "
                 "(the top table with lines respelt in ways expandTableFile may or may not follow - histogram text:<kind>/verdict, "
-                "verdict = written | raise | outside:<reason of the model> - and, one world in four, the expanded table itself); "
+                "verdict = written | raise | outside:<reason of the model> - and, seven worlds in ten, the expanded table itself: "
+                "text:re-expansion/<verdict> with text:exact-block-first-line | -after-setups | -after-other-lines, "
+                "text:commands-after-the-exact-block, text:flavor-conditional-after-the-exact-block, text:not-exact-blocks; in four "
+                "of those ten the re-expanded text is installed and replayed: replay-from-the-re-expanded-table); one case in 16 "
+                "from a fourth directed family (one or two products set up at a version named stable / current / latest / root "
+                "while the tag of that name sits on another version: set-up-version-named-like-a-tag[/tag-on-another-version]); "
+                "one case in 8 from a fifth (the top table was expanded by an earlier build: exact block with stale pins at the "
+                "first line or behind comments / commands / a block on type != exact, generated lines in other spellings, envSet "
+                "lines and a flavor conditional behind the setups; dependencies set up one by one: top-table-expanded-before/<shape>); "
                 "productList overrides (12%) and --force "
                 "(10%); the database then gains newer versions and current moves; a case is non-trivial when the build "
                 "succeeded and set up at least two products; distinct = distinct (tables, top product, productList)")
@@ -1352,7 +1570,9 @@ def setup_ctx(ctx):
     ctx.assumptions = ["one stack; every product declared under the running flavor or (all its versions) under the fall-back flavor "
                        "generic; declared products only (no setup -r / LOCAL: versions)",
                        "constructs outside the text model get an explicit verdict and are counted (text[...]/outside:<reason>, "
-                       "top-table-text/outside:<reason>): --external, a pre-existing if (type == exact) block, text around a setup "
+                       "top-table-text/outside:<reason>): --external, a line that mentions if (type == exact) { without being that "
+                       "line alone (a comment holding it, text behind the brace; the blocks an earlier expansion wrote are INSIDE "
+                       "the model: Model/ExpandRe.v), text around a setup "
                        "command (semicolon, unsetupRequired, two commands), parentheses inside the arguments, no product name, "
                        "the product name not first, a flag argument that is -j, characters outside ASCII / carriage returns, an "
                        "expression C10's model of version_match does not model; lines naming eups are modelled but cannot stand in "
@@ -1365,9 +1585,11 @@ def run(ctx):
     setup_ctx(ctx)
     ctx.check_theorems()
     cases = corpus_cases()
-    n = ctx.size(640, 5000)
+    n = ctx.size(600, 5000)
     for k in range(n):
         cases.append(gen_shared_case(ctx.rng) if k % 16 == 7 else
+                     gen_tagname_case(ctx.rng) if k % 16 == 9 else
+                     gen_installed_case(ctx.rng) if k % 16 in (1, 13) else
                      gen_failed_optional_case(ctx.rng) if k % 8 == 3 else
                      gen_spelling_case(ctx.rng) if k % 16 == 5 else gen_case(ctx.rng))
     for c in cases[:2]:
